@@ -3,7 +3,10 @@ C16 — The build-time compiler is deterministic and consistent with its include
 The file system and `OUT_DIR` are parameters of the model.
 -/
 import ShapeVerif.Model.Gen
+import ShapeVerif.Model.Build
 import ShapeVerif.Lemmas.Order
+import ShapeVerif.Props.C05
+import ShapeVerif.Props.C04Complete
 namespace ShapeVerif
 open Shape
 
@@ -45,5 +48,222 @@ theorem name_clash_witness :
 theorem name_prefix_separates (c : Members) (vs : List Shape) (o p : Bool) :
     shapeName (.object c o) ≠ shapeName (.oneOf vs p) := by
   cases o <;> cases p <;> simp [shapeName]
+
+
+/-! ### `compile_json` as a state machine over an abstract file system (Model/Build.lean)
+
+Every statement is for an arbitrary prior file system — in particular one in which the target file
+already exists with an older output, or in which other collections were compiled before. -/
+
+theorem str_append_left_cancel {a b c : String} (h : a ++ b = a ++ c) : b = c := by
+  have := congrArg String.toList h
+  simp at this
+  exact String.toList_inj.mp this
+
+theorem str_append_right_cancel {a b c : String} (h : b ++ a = c ++ a) : b = c := by
+  have := congrArg String.toList h
+  simp at this
+  exact String.toList_inj.mp this
+
+/-- different collection names are written to different files of the directory -/
+theorem targetPath_inj (env : BuildEnv) (n m : String) (h : targetPath env n = targetPath env m) : n = m := by
+  unfold targetPath targetFile at h
+  exact str_append_right_cancel (str_append_left_cancel h)
+
+/-- the model's target is the path the include macro reads -/
+theorem target_is_macro_path (env : BuildEnv) (name : String) :
+    targetPath env name = macroPath (env.outDir.getD env.cwd) name := by
+  simp [targetPath, targetFile, macroPath, String.append_assoc]
+
+theorem read_write_same (fs : FS) (p c : String) : (fs.write p c).read p = some c := by
+  simp [FS.write, FS.read]
+
+theorem read_write_other (fs : FS) (p q c : String) (h : q ≠ p) : (fs.write p c).read q = fs.read q := by
+  simp [FS.write, FS.read, Ne.symm h]
+
+/-- the four ways a request can end -/
+theorem compile_cases (fs : FS) (env : BuildEnv) (name : String) (paths : List String) :
+    (readSources fs paths = none ∧ compileJson fs env name paths = (fs, .err)) ∨
+    (∃ texts e, readSources fs paths = some texts ∧ fromSources (texts.map String.toList) = .err e ∧
+      compileJson fs env name paths = (fs, .err)) ∨
+    (∃ texts, readSources fs paths = some texts ∧ fromSources (texts.map String.toList) = .panic ∧
+      compileJson fs env name paths = (fs, .panic)) ∨
+    (∃ texts s, readSources fs paths = some texts ∧ fromSources (texts.map String.toList) = .ok s ∧
+      compileJson fs env name paths = (fs.write (targetPath env name) (genHeader ++ generate s), .ok (generate s))) := by
+  cases hr : readSources fs paths with
+  | none => exact .inl ⟨rfl, by simp [compileJson, hr]⟩
+  | some texts =>
+    cases hs : fromSources (texts.map String.toList) with
+    | ok s => exact .inr (.inr (.inr ⟨texts, s, rfl, hs, by simp [compileJson, hr, hs]⟩))
+    | err e => exact .inr (.inl ⟨texts, e, rfl, hs, by simp [compileJson, hr, hs]⟩)
+    | panic => exact .inr (.inr (.inl ⟨texts, rfl, hs, by simp [compileJson, hr, hs]⟩))
+
+/-- the build step never panics (through `entry_points_total`, C05) -/
+theorem compile_never_panics (fs : FS) (env : BuildEnv) (name : String) (paths : List String) :
+    (compileJson fs env name paths).2 ≠ .panic := by
+  rcases compile_cases fs env name paths with ⟨_, h⟩ | ⟨_, _, _, _, h⟩ | ⟨texts, _, hs, _⟩ | ⟨_, _, _, _, h⟩
+  · simp [h]
+  · simp [h]
+  · exact absurd hs (entry_points_total (texts.map String.toList) .null []).1
+  · simp [h]
+
+/-- **errors are clean**: a request that does not succeed leaves the file system exactly as it was -/
+theorem compile_error_leaves_fs (fs fs' : FS) (env : BuildEnv) (name : String) (paths : List String) (out : BuildOut)
+    (h : compileJson fs env name paths = (fs', out)) (ho : ∀ t, out ≠ .ok t) : fs' = fs := by
+  rcases compile_cases fs env name paths with ⟨_, h'⟩ | ⟨_, _, _, _, h'⟩ | ⟨_, _, _, h'⟩ | ⟨_, _, _, _, h'⟩ <;>
+    rw [h'] at h <;> simp at h
+  · exact h.1.symm
+  · exact h.1.symm
+  · exact h.1.symm
+  · exact absurd h.2.symm (ho _)
+
+/-- **the file is the returned text**: after a successful request the file the macro reads holds the
+header followed by exactly the text that was returned, whatever the directory held before, and no
+other file is touched -/
+theorem compile_ok_writes (fs fs' : FS) (env : BuildEnv) (name : String) (paths : List String) (t : String)
+    (h : compileJson fs env name paths = (fs', .ok t)) :
+    fs'.read (macroPath (env.outDir.getD env.cwd) name) = some (genHeader ++ t) ∧
+    ∀ p, p ≠ targetPath env name → fs'.read p = fs.read p := by
+  rw [← target_is_macro_path]
+  rcases compile_cases fs env name paths with ⟨_, h'⟩ | ⟨_, _, _, _, h'⟩ | ⟨_, _, _, h'⟩ | ⟨_, s, _, _, h'⟩ <;>
+    rw [h'] at h <;> simp at h
+  obtain ⟨h1, h2⟩ := h
+  subst h1; subst h2
+  exact ⟨read_write_same _ _ _, fun p hp => read_write_other _ _ _ _ hp⟩
+
+/-- an empty source list is an error -/
+theorem compile_rejects_empty (fs : FS) (env : BuildEnv) (name : String) :
+    compileJson fs env name [] = (fs, .err) := by
+  simp [compileJson, readSources, fromSources, fromSources.go, merge]
+
+theorem readSources_none_of_unreadable (fs : FS) : ∀ (paths : List String) (p : String),
+    p ∈ paths → fs.read p = none → readSources fs paths = none
+  | q :: ps, p, hp, hn => by
+    simp only [readSources]
+    rcases List.mem_cons.mp hp with rfl | hp'
+    · rw [hn]
+    · rw [readSources_none_of_unreadable fs ps p hp' hn]
+      cases fs.read q <;> rfl
+
+/-- a source path that cannot be read is an error -/
+theorem compile_rejects_unreadable (fs : FS) (env : BuildEnv) (name : String) (paths : List String) (p : String)
+    (hp : p ∈ paths) (hn : fs.read p = none) : compileJson fs env name paths = (fs, .err) := by
+  simp [compileJson, readSources_none_of_unreadable fs paths p hp hn]
+
+/-- a source text that single-document parsing does not accept is an error -/
+theorem compile_rejects_invalid (fs : FS) (env : BuildEnv) (name : String) (paths : List String) (texts : List String)
+    (hr : readSources fs paths = some texts) (t : String) (ht : t ∈ texts) (hbad : ∀ v, fromStr t.toList ≠ .ok v) :
+    compileJson fs env name paths = (fs, .err) := by
+  rcases compile_cases fs env name paths with ⟨_, h'⟩ | ⟨_, _, _, _, h'⟩ | ⟨tx, hr', hs, _⟩ | ⟨tx, s, hr', hs, _⟩
+  · exact h'
+  · exact h'
+  · exact absurd hs (entry_points_total (tx.map String.toList) .null []).1
+  · rw [hr] at hr'; cases hr'
+    obtain ⟨v, hv⟩ := ((sources_iff (texts.map String.toList)).mp ⟨s, hs⟩).2 t.toList (List.mem_map.mpr ⟨t, ht, rfl⟩)
+    exact absurd hv (hbad v)
+
+/-- **determinism**: the result and the written bytes are a function of the sources' contents, the
+name and the directory; compiling again without touching the sources returns the same text and
+leaves every file as it is (the target is not one of its own sources) -/
+theorem readSources_congr (fs fs' : FS) : ∀ (paths : List String), (∀ p ∈ paths, fs'.read p = fs.read p) →
+    readSources fs' paths = readSources fs paths
+  | [], _ => rfl
+  | p :: ps, h => by
+    simp only [readSources]
+    rw [h p (by simp), readSources_congr fs fs' ps (fun q hq => h q (by simp [hq]))]
+
+theorem compile_twice (fs fs1 : FS) (env : BuildEnv) (name : String) (paths : List String) (t : String)
+    (hsrc : targetPath env name ∉ paths)
+    (h : compileJson fs env name paths = (fs1, .ok t)) :
+    ∃ fs2, compileJson fs1 env name paths = (fs2, .ok t) ∧ ∀ p, fs2.read p = fs1.read p := by
+  have hw := compile_ok_writes fs fs1 env name paths t h
+  rw [← target_is_macro_path] at hw
+  have hread : readSources fs1 paths = readSources fs paths :=
+    readSources_congr fs fs1 paths (fun p hp => hw.2 p (fun e => hsrc (e ▸ hp)))
+  rcases compile_cases fs env name paths with ⟨_, h'⟩ | ⟨_, _, _, _, h'⟩ | ⟨_, _, _, h'⟩ | ⟨tx, s, hr, hs, h'⟩ <;>
+    rw [h'] at h <;> simp at h
+  obtain ⟨h1, h2⟩ := h
+  have h2' : compileJson fs1 env name paths =
+      (fs1.write (targetPath env name) (genHeader ++ generate s), .ok (generate s)) := by
+    simp [compileJson, hread, hr, hs]
+  refine ⟨_, by rw [h2', h2], ?_⟩
+  intro p
+  by_cases hp : p = targetPath env name
+  · subst hp
+    simp [read_write_same, hw.1, h2]
+  · rw [read_write_other _ _ _ _ hp]
+
+/-- the text most recently returned for `name` in a history of requests and their results -/
+def lastText (name : String) : List BuildOp → List BuildOut → Option String
+  | op :: ops, out :: outs =>
+    match lastText name ops outs with
+    | some t => some t
+    | none => if op.name = name then (match out with | .ok t => some t | _ => none) else none
+  | _, _ => none
+
+/-- **histories**: after any sequence of requests into one directory (any names, any source lists,
+failing requests in between, repeated names), the file of every collection holds the header and
+the text returned by the *last successful* request for that name; the file of a name that never
+succeeded is what it was before -/
+theorem history_file_is_last_text (env : BuildEnv) : ∀ (ops : List BuildOp) (fs : FS) (name : String),
+    (runBuild env fs ops).1.read (targetPath env name) =
+      match lastText name ops (runBuild env fs ops).2 with
+      | some t => some (genHeader ++ t)
+      | none => fs.read (targetPath env name)
+  | [], fs, name => by simp [runBuild, lastText]
+  | op :: ops, fs, name => by
+    have ih := history_file_is_last_text env ops (compileJson fs env op.name op.paths).1 name
+    simp only [runBuild, lastText]
+    rw [ih]
+    cases hl : lastText name ops (runBuild env (compileJson fs env op.name op.paths).1 ops).2 with
+    | some t => rfl
+    | none =>
+      simp only []
+      cases hc : compileJson fs env op.name op.paths with
+      | mk fs1 out =>
+        simp only []
+        by_cases hn : op.name = name
+        · subst hn
+          cases out with
+          | ok t =>
+            have := (compile_ok_writes fs fs1 env op.name op.paths t hc).1
+            rw [← target_is_macro_path] at this
+            simp [this]
+          | err => simp [compile_error_leaves_fs fs fs1 env op.name op.paths .err hc (by simp)]
+          | panic => simp [compile_error_leaves_fs fs fs1 env op.name op.paths .panic hc (by simp)]
+        · simp only [hn, if_false]
+          cases out with
+          | ok t =>
+            exact (compile_ok_writes fs fs1 env op.name op.paths t hc).2 _
+              (fun e => hn (targetPath_inj env _ _ e).symm)
+          | err => rw [compile_error_leaves_fs fs fs1 env op.name op.paths .err hc (by simp)]
+          | panic => rw [compile_error_leaves_fs fs fs1 env op.name op.paths .panic hc (by simp)]
+
+/-- **exactly when a request succeeds**: every path is readable, the list is not empty and every text
+is accepted by single-source parsing (by `accept_iff`: is a JSON text within the nesting bound without
+conflicting member names) — so unreadable, invalid and empty lists are errors, and nothing else is -/
+theorem compile_ok_iff (fs : FS) (env : BuildEnv) (name : String) (paths : List String) :
+    (∃ t, (compileJson fs env name paths).2 = .ok t) ↔
+      ∃ texts, readSources fs paths = some texts ∧ texts ≠ [] ∧ ∀ t ∈ texts, ∃ v, fromStr t.toList = .ok v := by
+  constructor
+  · rintro ⟨t, ht⟩
+    rcases compile_cases fs env name paths with ⟨_, h'⟩ | ⟨_, _, _, _, h'⟩ | ⟨_, _, _, h'⟩ | ⟨tx, s, hr, hs, _⟩
+    · rw [h'] at ht; cases ht
+    · rw [h'] at ht; cases ht
+    · rw [h'] at ht; cases ht
+    · obtain ⟨hne, hall⟩ := (sources_iff (tx.map String.toList)).mp ⟨s, hs⟩
+      refine ⟨tx, hr, fun e => hne (by simp [e]), fun t ht => hall t.toList (List.mem_map.mpr ⟨t, ht, rfl⟩)⟩
+  · rintro ⟨texts, hr, hne, hall⟩
+    obtain ⟨s, hs⟩ := (sources_iff (texts.map String.toList)).mpr
+      ⟨fun e => hne (by simpa using e), fun t ht => by
+        obtain ⟨u, hu, rfl⟩ := List.mem_map.mp ht
+        exact hall u hu⟩
+    exact ⟨generate s, by simp [compileJson, hr, hs]⟩
+
+/- Non-vacuity: `fromStr` does not reduce in the kernel (well-founded recursion in the lexer), so no
+closed `example` is given; `compile_ok_iff` shows the success hypothesis of `compile_ok_writes` /
+`compile_twice` is met exactly by readable non-empty lists of accepted texts, and the driver
+evaluates `runBuild` on every `p_c16h` history of the run (e.g. stale target, `1` compiled, a missing
+path, `true` compiled ↦ results ok/err/ok and the file holds the `Boolean` alias). -/
 
 end ShapeVerif
